@@ -79,8 +79,12 @@ func vC11Frames(s *Sample, ids map[*Function]int) []int {
 	return out
 }
 
+// vC11Simple is the simplified form of each pool name, by hand (the frame
+// rules match the simplified name: no PPC64 leading dot, no argument list).
+var vC11Simple = map[string]string{"a": "a", ".b": "b", "c(int, char*)": "c"}
+
 func vC11Names() map[int]string {
-	pool := []string{"a", "b", "c"}
+	pool := []string{"a", ".b", "c(int, char*)"}
 	names := map[int]string{}
 	for f := 1; f <= 3; f++ {
 		names[f] = pool[vChoice("name"+strconv.Itoa(f), vBound("c11.names", 2))]
@@ -131,7 +135,7 @@ func VerifC11Prune() {
 	keep := vRegexp("keep")
 	useKeep := vChoice("usekeep", 2) == 1
 	match := func(f int) bool {
-		n := simplifyFunc(names[f])
+		n := vC11Simple[names[f]]
 		if !drop.MatchString(n) {
 			return false
 		}
@@ -209,7 +213,7 @@ func VerifC11PruneFrom() {
 		fs := vC11Frames(s, ids)
 		cut := -1
 		for i := len(fs) - 1; i >= 0; i-- { // lowest = leaf-most match
-			if rx.MatchString(simplifyFunc(names[fs[i]])) {
+			if rx.MatchString(vC11Simple[names[fs[i]]]) {
 				cut = i
 				break
 			}
